@@ -44,8 +44,8 @@ Diff(w, post) ==
   LET pm == MOf(post.m)
       po == FrameOf(post)
   IN (IF post.exit # w.exit THEN {"exit"} ELSE {})
-     \cup (IF w.exit = "continue" /\ \E i \in 1..13 : post.regs[i] # w.o.regs[i] /\ ~(i = 9 /\ w.fault.on /\ FaultOk(w.fault, post.regs[9]))
-           THEN {"regs"} ELSE {})                                                       \* P-panicreg, P-fault
+     \cup (IF w.exit \in {"continue", "panic"} /\ \E i \in 1..13 : post.regs[i] # w.o.regs[i] /\ ~(i = 9 /\ w.fault.on /\ FaultOk(w.fault, post.regs[9]))
+           THEN {"regs"} ELSE {})                                                       \* P-oogreg, P-fault
      \cup (IF (w.o.gas < 0 /\ ~post.gasneg) \/ (w.o.gas >= 0 /\ (post.gasneg \/ post.gas # w.o.gas)) THEN {"gas"} ELSE {})
      \cup (IF po.acc # w.o.acc THEN {"outer-access"} ELSE {})
      \cup (IF NormMem(po).data # NormMem(w.o).data THEN {"outer-mem"} ELSE {})
@@ -66,8 +66,51 @@ NoWant == [exit |-> "-"]
 \* that accepts the observed post state for a narrowly guarded input class, enabled by its slug in KnownDeviations.
 Deviations(e, ws) == {}
 
+\* ------------------------------------------------------------------ end-to-end records (k = "e2e")
+\* The same calls issued by a REAL outer program through Psi_M (ecalli dispatch, RefineOmegas, the context carried
+\* from call to call): {k, ops:[{call, w, set:[[addr, bytes]..]}..], image:{acc, data} (memory after standard
+\* initialisation), res:{kind: halt|panic|oog|gopanic, out: bytes, m, used}}.  The program stores omega7 and omega8
+\* after every call into a log that it returns on halt.  The specification folds Apply over the script (every
+\* permitted alternative is followed) and must reproduce the log, the way the invocation ends and the final machines.
+LoadW(o, w) == [o EXCEPT !.regs = [i \in 1..13 |-> IF i >= 8 THEN w[i - 7] ELSE @[i]]]
+RECURSIVE ApplySets(_, _, _)
+ApplySets(o, sets, i) == IF i > Len(sets) THEN o ELSE ApplySets(PutBytes(o, LE(sets[i][1], 8), sets[i][2]), sets, i + 1)
+RECURSIVE E2EFold(_, _, _)
+E2EFold(ops, i, S) ==
+  IF i > Len(ops) THEN S
+  ELSE LET op == ops[i]
+           step(s) == IF s.exit # "continue" THEN {s}
+                      ELSE LET outs == Apply(op.call, LoadW(ApplySets(s.o, op.set, 1), op.w), s.m)
+                           IN IF Len(outs) = 0 THEN {[s EXCEPT !.exit = "unjudged"]}
+                              ELSE {[o |-> outs[j].o, m |-> outs[j].m, exit |-> outs[j].exit,
+                                     log |-> Append(s.log, [w7 |-> outs[j].o.regs[8], w8 |-> outs[j].o.regs[9], fault |-> outs[j].fault])]
+                                    : j \in 1..Len(outs)}
+       IN E2EFold(ops, i + 1, UNION {step(s) : s \in S})
+LogMatches(log, out) ==
+  /\ Len(out) = 16 * Len(log)
+  /\ \A j \in 1..Len(log) :
+       /\ Sub(out, 16 * j - 15, 16 * j - 8) = log[j].w7
+       /\ \/ Sub(out, 16 * j - 7, 16 * j) = log[j].w8
+          \/ log[j].fault.on /\ FaultOk(log[j].fault, Sub(out, 16 * j - 7, 16 * j))
+MapEq(pm, wm) == DOMAIN pm = DOMAIN wm /\ \A n \in DOMAIN pm : MachEq(pm[n], wm[n])
+JudgeE2E(e) ==
+  IF e.res.kind = "gopanic" THEN {[why |-> "e2e:gopanic", want |-> NoWant]}
+  ELSE
+  LET o0 == [regs |-> [i \in 1..13 |-> U64Zero], gas |-> 1000000, acc |-> AccOfL(e.image.acc), data |-> DataOfL(e.image.data)]
+      S == E2EFold(e.ops, 1, {[o |-> o0, m |-> <<>>, exit |-> "continue", log |-> <<>>]})
+      pm == MOf(e.res.m)
+      ok(s) == \/ s.exit = "unjudged"
+               \/ s.exit = "continue" /\ e.res.kind = "halt" /\ LogMatches(s.log, e.res.out) /\ MapEq(pm, s.m)
+               \/ s.exit = "panic" /\ e.res.kind = "panic" /\ MapEq(pm, s.m)
+      one == CHOOSE s \in S : TRUE
+  IN IF ~UniqueIds(e.res.m) THEN {[why |-> "e2e:duplicate-machine-id", want |-> NoWant]}
+     ELSE IF \E s \in S : ok(s) THEN {}
+     ELSE {[why |-> "e2e:" \o one.exit \o "-vs-" \o e.res.kind,
+            want |-> [exit |-> one.exit, log |-> [j \in 1..Len(one.log) |-> <<one.log[j].w7, one.log[j].w8>>], ids |-> SetToSeq(DOMAIN one.m)]]}
+
 \* set of [why, want] labels; empty = the record conforms
 Judge(e) ==
+  IF "k" \in DOMAIN e THEN JudgeE2E(e) ELSE
   IF ~UniqueIds(e.pre.m) \/ ~UniqueIds(e.post.m) THEN {[why |-> "duplicate-machine-id", want |-> NoWant]}
   ELSE LET ws == Outcomes(e) IN
        IF e.post.exit = "gopanic" THEN {[why |-> "gopanic:" \o e.call, want |-> IF Len(ws) > 0 THEN Summary(ws[1]) ELSE NoWant]}
@@ -79,7 +122,7 @@ Init == l = 1 /\ devs = {} /\ bad = {}
 Next == /\ l <= Len(Trace)
         /\ LET e == Trace[l]
                j == Judge(e)
-               dv == IF j = {} THEN {} ELSE Deviations(e, Outcomes(e))
+               dv == IF j = {} \/ "k" \in DOMAIN e THEN {} ELSE Deviations(e, Outcomes(e))
            IN IF j # {} /\ dv # {}
               THEN bad' = bad /\ devs' = devs \cup {[l |-> l, slug |-> s] : s \in dv}
               ELSE bad' = bad \cup {[l |-> l, why |-> y.why, want |-> y.want] : y \in j} /\ devs' = devs
